@@ -44,6 +44,8 @@ def formulas(tier):
         "y ~ binary(f, 'a') + x", "y ~ binary(g) + x", "y ~ B(f):x", "y ~ binary(k, 2)", "y ~ binary(k)", "y ~ offset(x) + z",
         # operators that build several terms from one written factor
         "y ~ f/g", "y ~ f/x", "y ~ g/f/x", "y ~ f:(g + x)", "y ~ (f + g)**2", "y ~ 0 + (f + g)**2", "y ~ f*g*x", "y ~ (f + g):x", "y ~ (f + g)*x", "y ~ 0 + f*g", "y ~ center(x)/f", "y ~ (x + f|g) + f/x",
+        # several dummy columns written before a multi-column numeric; group terms of two factors interleaved
+        "y ~ g:poly(x, 2, raw=True)", "y ~ 0 + f:poly(x, 2, raw=True)", "y ~ (1|g) + (1|h) + (0 + x|g)", "y ~ (x|g + h)", "y ~ (0 + g:poly(x, 2, raw=True)|f)",
     ]
     if tier != "quick":
         f += ["y ~ x*f*g", "y ~ center(x)*f", "y ~ scale(x) + scale(z) + scale(x):scale(z)", "y ~ poly(x, 4, raw=True) + poly(z, 2, raw=True)",
